@@ -67,14 +67,15 @@ func build(expr logql.Expr, sel SampleSelector, params EvalParams) (_ StepIterat
 	case *logql.VectorExpr:
 		return Vector(expr, params.Start, params.End, params.Step), nil
 	case *logql.BinOpExpr:
-		if lit, ok := expr.Left.(*logql.LiteralExpr); ok {
+		// Parentheses around a literal do not change what it is: `(2) * x`.
+		if lit, ok := logql.UnparenExpr(expr.Left).(*logql.LiteralExpr); ok {
 			right, err := build(expr.Right, sel, params)
 			if err != nil {
 				return nil, err
 			}
 			return LiteralBinOp(right, expr, lit.Value, true)
 		}
-		if lit, ok := expr.Right.(*logql.LiteralExpr); ok {
+		if lit, ok := logql.UnparenExpr(expr.Right).(*logql.LiteralExpr); ok {
 			left, err := build(expr.Left, sel, params)
 			if err != nil {
 				return nil, err
